@@ -114,6 +114,19 @@ fn ix(rep: &mut Report, thorough: bool) {
         s.extend_from_slice(&sentinel);
         check(rep, &format!("last {k} bytes right"), &s, &[], false, None);
     }
+    // the expected hash IS the SHA-256 of the configured password, byte for byte, whatever its shape (independent implementation)
+    {
+        use sha2::{Digest, Sha256};
+        let long = "p".repeat(1000);
+        for pw in ["", " ", "a", "A", " a", "a ", "a\n", "a\0b", "a\tb", "päss wörd", "ＰＡＳＳ", "pass\u{301}", long.as_str(), "0123456789abcdef0123456789abcdef", "0123456789abcdef0123456789abcdefX", PW] {
+            rep.case(Some(&format!("hash of configured password {:?}", if pw.len() > 40 { &pw[..40] } else { pw })));
+            let want: [u8; 32] = Sha256::digest(pw.as_bytes()).into();
+            let got = hash_password(pw);
+            if got != want {
+                rep.violation("C06:expected-hash-is-not-sha256-of-the-password", &format!("password {:?} ({} bytes): the hash the server expects / the client sends is {:02x?}…, SHA-256 of the password is {:02x?}…", if pw.len() > 40 { &pw[..40] } else { pw }, pw.len(), &got[..6], &want[..6]), json!({"engine": "IX", "password_len": pw.len()}));
+            }
+        }
+    }
     // hashes of related passwords
     for pw in [PW.to_uppercase(), PW.to_lowercase().replace('c', "C"), format!("{PW} "), format!(" {PW}"), format!("{PW}\0"), format!("{PW}\n"), PW[..PW.len() - 1].to_string(), PW[1..].to_string(), String::new(), format!("{PW}{PW}"), PW.replace(' ', ""), PW.replace(' ', "  ")] {
         if pw == PW {
@@ -381,5 +394,5 @@ pub fn run(tier: Tier) -> i32 {
     ix(&mut rep, thorough);
     lx(&mut rep, thorough);
     rep.sample(json!({"case": "bit flip 17 of the right hash, padding 0, followed by valid Settings+SYN+destination+data"}));
-    rep.finish("IX at authenticate_client over a byte-counting reader: right hash; all 256 bit flips; single-byte substitutions (thorough: all 32x255); k-byte prefixes/suffixes; 12 related passwords; every declared padding length 0..=65535 followed by a sentinel frame; every truncation for padding {0,1,30,300}; every 1-cut (and 2-cut) fragmentation and byte-at-a-time; LX: the same families as real TLS connections to the real Server (bad: zero reply bytes, connection closed by the server, target never contacted; good: data reaches the target), plus incomplete preambles followed by 11 s .. 301 s of silence on the open connection and then frames; non-trivial = distinct case")
+    rep.finish("IX at authenticate_client over a byte-counting reader: right hash; all 256 bit flips; single-byte substitutions (thorough: all 32x255); k-byte prefixes/suffixes; 12 related passwords; hash_password against an independent SHA-256 for 16 password shapes; every declared padding length 0..=65535 followed by a sentinel frame; every truncation for padding {0,1,30,300}; every 1-cut (and 2-cut) fragmentation and byte-at-a-time; LX: the same families as real TLS connections to the real Server (bad: zero reply bytes, connection closed by the server, target never contacted; good: data reaches the target), plus incomplete preambles followed by 11 s .. 301 s of silence on the open connection and then frames; non-trivial = distinct case")
 }
